@@ -59,6 +59,15 @@ def text_edits(rng):
     out.append(("let la = %s\nlet lb = %s\nfrom la\njoin lb (la.id == lb.id)\n%s\n" % (A, B, use), "ambiguous/let/" + use.split()[0], "id"))
     out.append(("from x = %s\njoin side:left y = %s (x.id == y.id)\n%s\n" % (A, B, use), "ambiguous/left/" + use.split()[0], "id"))
     out.append(("from x = [{id = 1, a = 2}]\njoin y = [{id = 1, b = 3}] (x.id == y.id)\n%s\n" % use, "ambiguous/lit/" + use.split()[0], "id"))
+    # the same ambiguity when one of the two candidates is an ALIAS (derived / renamed / aggregated column, which
+    # lives directly in the frame) and the other a column of a named input (reached through the input's name)
+    use2 = rng.choice(["select {x.k, a}", "filter a > 0", "sort {a}", "derive {q = a + 1}", "group {a} (aggregate {n = count this})", "aggregate {m = max a}"])
+    u2 = use2.split()[0]
+    out.append(("from x = [{k = 1, b = 2}]\nderive {a = b * 2}\njoin y = [{k = 1, a = 5}] (x.k == y.k)\n%s\n" % use2, "ambiguous/alias_left_derive/" + u2, "a"))
+    out.append(("from x = [{k = 1, b = 2}]\nselect {x.k, a = x.b}\njoin y = [{k = 1, a = 5}] (x.k == y.k)\n%s\n" % use2, "ambiguous/alias_left_select/" + u2, "a"))
+    out.append(("from x = [{k = 1, b = 2}, {k = 1, b = 3}]\ngroup {x.k} (aggregate {a = sum x.b})\njoin y = [{k = 1, a = 5}] (k == y.k)\n%s\n" % use2.replace("x.k", "y.k"), "ambiguous/alias_left_aggregate/" + u2, "a"))
+    out.append(("from x = [{k = 1, a = 2}]\njoin (from [{k = 1, b = 5}] | select {k2 = k, a = b}) (x.k == k2)\n%s\n" % use2, "ambiguous/alias_right_select/" + u2, "a"))
+    out.append(("from x = (from t1 | select {k, b})\nderive {a = b * 2}\njoin y = (from t2 | select {k, a}) (x.k == y.k)\n%s\n" % use2, "ambiguous/alias_left_table/" + u2, "a"))
     # (c) arguments
     n = rng.randint(1, 3)
     out.append(("let f = a b -> a + b\nfrom t1\nderive {q = (f 1 2%s)}\n" % (" 3" * n), "surplus_positional/user_func/%d" % n, None))
